@@ -8,6 +8,7 @@ images and values from gcc-compiled accessors reached through ctypes.
 import ctypes
 
 from .. import cref, pool
+from . import _c02_anon
 from ..build import InfraError
 
 ID = "C02"
@@ -181,12 +182,29 @@ def run(ctx):
         for plc, kind, info in bad:
             ctx.violation({"kind": kind, "width": plc[3] if plc[3] == 64 else "<64", "signed": plc[2]},
                           {"placement": plc, "kind": kind, "info": info})
+    # family E: bitfields inside anonymous nested structs/unions, in-line and API mode
+    for mode, r in pool.pmap(_c02_anon.work, [["inline"], ["api"]]):
+        if isinstance(r, pool.WorkerError):
+            raise InfraError(r.tb)
+        if isinstance(r, pool.Crash):
+            ctx.violation({"kind": "crash", "family": "E", "mode": mode}, {"anon_mode": mode, "how": r.describe()})
+            continue
+        n, nc, bad = r
+        ctx.count("family_E_%s_shapes" % mode, n)
+        tot += n
+        cases += nc
+        accepted += nc
+        for it, kind, info in bad:
+            ctx.violation({"family": "E", "mode": mode, "shape": it[0], "kind": kind},
+                          {"anon_mode": mode, "item": list(it), "kind": kind, "info": info})
     cov = {
         "evaluations": cases,
         "distinct_nontrivial": accepted,
         "placements": tot,
         "rule": "every (type, bit offset k, width w) with k+w <= bits(type) for the 10 standard integer types (family A), "
-                "bitfields following 1..sizeof-1 plain bytes (family B), _Bool:1 at every bit (family C); x B(range) "
+                "bitfields following 1..sizeof-1 plain bytes (family B), _Bool:1 at every bit (family C), members of a union "
+                "after another bitfield (family D), members of anonymous nested structs/unions in 6 nesting shapes x "
+                "5 types x widths, in in-line AND API mode (family E); x B(range) "
                 "values (boundaries, neighbours, powers of two up to 2^128, +-10^30) x backgrounds {00,FF}; "
                 "non-trivial = the store was accepted and therefore read-back, image and cross-reads were compared "
                 "(distinct (placement,value,background) triples)",
@@ -196,6 +214,13 @@ def run(ctx):
 
 
 def replay(detail):
+    if "anon_mode" in detail:
+        n, nc, bad = _c02_anon.work(detail["anon_mode"])
+        want = detail.get("item")
+        bad = [b for b in bad if want is None or list(b[0]) == list(want)]
+        for b in bad[:20]:
+            print("MISMATCH", b[0][1], "{", b[0][7], "}", b[1], b[2])
+        return 1 if bad else 0
     plc = tuple(detail["placement"])
     n, nc, na, bad = work([plc])
     print("struct { %s}" % plc[4])
